@@ -480,7 +480,43 @@ struct FaultyOp
         }
         base.perform_op(x, y);
     }
+    // shift-and-invert solvers install their shift through the operator (not counted as an application, never fails here)
+    void set_shift(const Real& sigma) { base.set_shift(sigma); }
 };
+// fault in the shift-solve operator of a shift-and-invert solver, at every application (single fault)
+template <typename Solver, typename OpBase, bool Gen>
+static void fault_shift_case(const RMat& A, int n, int nev, int ncv, double sigma, Args args)
+{
+    RVec v0 = start_vector("generic", n);
+    Result fresh;
+    {
+        FaultyOp<OpBase> op(A);
+        op.armed = false;
+        Solver e(op, nev, ncv, Real(sigma));
+        e.init(v0.data());
+        long nc = e.compute(args.rule, args.maxit, Real(args.tol));
+        fresh = collect<Gen>(e, nc);
+        sym::note("fault-free applications", std::to_string(op.calls));
+    }
+    FaultyOp<OpBase> op(A);
+    Solver e(op, nev, ncv, Real(sigma));
+    try
+    {
+        e.init(v0.data());
+        e.compute(args.rule, args.maxit, Real(args.tol));
+    }
+    catch (const Fault& f)
+    {
+        sym::expect("the operator's exception propagates unchanged", f.tag == 4711 + (int) op.calls, "tag " + std::to_string(f.tag));
+        sym::note("fault at application", std::to_string(op.calls));
+    }
+    op.armed = false;
+    e.init(v0.data());
+    long nc = e.compute(args.rule, args.maxit, Real(args.tol));
+    Result after = collect<Gen>(e, nc);
+    compare("after the fault (shift-and-invert)", fresh, after);
+    sym::witness("end");
+}
 template <typename Solver, typename OpBase, bool Gen>
 static void fault_case(const RMat& A, int n, int nev, int ncv, Args args, int nfaults)
 {
@@ -754,6 +790,12 @@ int main(int argc, char** argv)
     cases.push_back({"svd/tall", []() { svd_case(7, 5); }});
     cases.push_back({"svd/wide", []() { svd_case(5, 7); }});
     cases.push_back({"svd/square", []() { svd_case(6, 6); }});
+    cases.push_back({"fault-shift/SymEigsShiftSolver/laplace/faults1", []() {
+                         fault_shift_case<SymEigsShiftSolver<FaultyOp<DenseSymShiftSolve<Real>>>, DenseSymShiftSolve<Real>, false>(instance("laplace", 6, true), 6, 2, 4, 0.3, Args{SortRule::LargestMagn, 10, 1e-10});
+                     }});
+    cases.push_back({"fault-shift/GenEigsRealShiftSolver/int/faults1", []() {
+                         fault_shift_case<GenEigsRealShiftSolver<FaultyOp<DenseGenRealShiftSolve<Real>>>, DenseGenRealShiftSolve<Real>, true>(instance("int", 6, false), 6, 2, 5, 0.3, Args{SortRule::LargestMagn, 10, 1e-10});
+                     }});
     for (int nf = 1; nf <= 2; nf++)
     {
         std::string t = "/faults" + std::to_string(nf);
